@@ -36,6 +36,9 @@
 (*   DevIIdxAll updateOtherFkToHere overwrites the IIndex of every FkToHere  *)
 (*              entry of the altered table in the target index, not only of  *)
 (*              the entry that belongs to the index (F16)                    *)
+(*   DevCreateStale  create refuses a table in which a self reference is     *)
+(*              followed by a foreign key to another table (createFkeys      *)
+(*              loses the IIndex, validation fails; F17)                     *)
 EXTENDS Naturals, Sequences, FiniteSets, TLC
 
 CONSTANTS
@@ -43,7 +46,8 @@ CONSTANTS
     BkExact,        \* TRUE: BestKey chosen by the code's rule (SetBestKeys);
                     \* FALSE: any key of the table (the rule is not part of C21)
     DevF9,
-    DevIIdxAll
+    DevIIdxAll,
+    DevCreateStale
 
 VARIABLES sch, views, data
 vars == <<sch, views, data>>
@@ -266,6 +270,9 @@ CreateInvalid(S, r) ==
     \/ ~IdxShapeOK(r.cols, r.idxs)
     \/ LET s2 == FnPut(S.sch, r.t, [cols |-> r.cols, idxs |-> r.idxs]) IN
           \E i \in 1..Len(r.idxs) : ~FkTargetOK(s2, r.idxs[i])
+    \/ /\ DevCreateStale
+       /\ \E i, j \in 1..Len(r.idxs) :
+             i < j /\ r.idxs[i].fk.tbl = r.t /\ r.idxs[j].fk.tbl \notin {"", r.t}
 
 CreateSuccs(S, r) ==
     {[S EXCEPT !.sch = AddLinks(FnPut(S.sch, r.t, [cols |-> r.cols, idxs |-> ixs]),
